@@ -66,9 +66,9 @@ class C11(Check):
             reg = stdreg.std_registry('sync')
             return st.builds(lambda text, beh, mbs, codec: {'kind': 'server', 'max_batch_size': batch_limit(text, mbs), 'behaviours': beh, 'text': text,
                                                             'middlewares': [], 'handlers': None, 'codec': codec},
-                             docs.document(reg), stdreg.behaviours(), st.sampled_from(BATCH_LIMITS), st.sampled_from(CODEC_CHOICES))
+                             docs.document(reg), stdreg.behaviours(True), st.sampled_from(BATCH_LIMITS), st.sampled_from(CODEC_CHOICES))
         s12 = c12.CHECK.strategy(tier).map(lambda s: {'kind': 'server', 'max_batch_size': None, 'behaviours': s['behaviours'], 'text': s['text'],
-                                                      'middlewares': s['middlewares'], 'handlers': s['handlers']})
+                                                      'middlewares': s['middlewares'], 'handlers': s['handlers'], 'mw_container': s.get('mw_container', 'list')})
         s_codec = st.sampled_from(['default', 'default'] + ch.CODECS[1:])
         s19 = st.tuples(c19.CHECK.strategy(tier), s_codec).map(lambda t: {**t[0], 'kind': 'client-script', 'codec': t[1]})
         s09 = st.tuples(c09.CHECK.strategy(tier), s_codec).map(lambda t: {**t[0], 'kind': 'client-retry', 'codec': t[1]})
@@ -120,7 +120,8 @@ class C11(Check):
         hm.RT.reset(sentinel, behaviours, error_builder=sh.build_error)
         mws = stack.build_middlewares(spec['middlewares'], ev, is_async)
         table = stack.build_handlers(spec['handlers'], ev, is_async)
-        kw: Dict[str, Any] = {'middlewares': mws, 'error_handlers': table}
+        container = spec.get('mw_container', 'list')
+        kw: Dict[str, Any] = {'middlewares': mws if container == 'list' else tuple(mws) if container == 'tuple' else (m for m in mws), 'error_handlers': table}
         if spec.get('max_batch_size') is not None:
             kw['max_batch_size'] = spec['max_batch_size']
         if spec.get('codec', 'default') != 'default':
